@@ -219,9 +219,7 @@ Proof.
         apply get_vl_some_pos in Gk. lia.
       * destruct (discard_all c vls t) as [a b] eqn:E. assert (a = vls') by congruence. subst a. eauto.
       * destruct (discard_all c vls t) as [a b] eqn:E. assert (a = vls') by congruence. subst a. eauto.
-    + destruct (c_maxio c =? 1).
-      * destruct (discard_all c vls t) as [a b] eqn:E. assert (a = vls') by congruence. subst a. eauto.
-      * congruence.
+    + destruct (discard_all c vls t) as [a b] eqn:E. assert (a = vls') by congruence. subst a. eauto.
 Qed.
 
 Lemma discard_all_idem c t : forall vls vls' d,
@@ -249,14 +247,12 @@ Proof.
         assert (a = vls') by congruence. subst a.
         rewrite Lk. rewrite (discard_all_other _ _ _ _ _ _ Hk E), Gk, Dv.
         rewrite (IH _ _ _ Hn' E). exact H.
-    + destruct (c_maxio c =? 1) eqn:M1.
-      * destruct (discard_all c vls t) as [a b] eqn:E.
-        assert (a = vls') by congruence. subst a.
-        assert (G' : (if c_maxio c <? k then None else get_vl vls' k) = None).
-        { destruct (c_maxio c <? k); [reflexivity|].
-          rewrite (discard_all_other _ _ _ _ _ _ Hk E). exact G. }
-        rewrite G'. rewrite (IH _ _ _ Hn' E). exact H.
-      * assert (vls' = vls) by congruence. subst vls'. rewrite G. exact H.
+    + destruct (discard_all c vls t) as [a b] eqn:E.
+      assert (a = vls') by congruence. subst a.
+      assert (G' : (if c_maxio c <? k then None else get_vl vls' k) = None).
+      { destruct (c_maxio c <? k); [reflexivity|].
+        rewrite (discard_all_other _ _ _ _ _ _ Hk E). exact G. }
+      rewrite G'. rewrite (IH _ _ _ Hn' E). exact H.
 Qed.
 
 (* running the same truncation again changes nothing and returns the same result *)
